@@ -216,13 +216,14 @@ pub fn streaming_case(cx: &mut Ctx, strings: &[String], terms: &[u8], cut_last: 
 }
 
 // ---------------------------------------------------------------- SortableStrVec
-fn check_search(name: &str, sorted: &[String], p: &str, got: Result<usize, usize>, bad: &mut Vec<String>) {
+/// `strict_err`: the API documents Err(insertion point); otherwise only presence/absence is constrained.
+fn check_search(name: &str, sorted: &[String], p: &str, got: Result<usize, usize>, strict_err: bool, bad: &mut Vec<String>) {
     match got {
         Ok(i) => if sorted.get(i).map(|s| s.as_str()) != Some(p) { bad.push(format!("{}: binary_search({:?}) = Ok({}) but that element is {:?}", name, p, i, sorted.get(i))); },
         Err(i) => {
             let lb = sorted.partition_point(|s| s.as_str() < p);
             if sorted.iter().any(|s| s == p) { bad.push(format!("{}: binary_search({:?}) = Err({}) but the string is present", name, p, i)); }
-            else if i != lb { bad.push(format!("{}: binary_search({:?}) = Err({}), insertion point is {}", name, p, i, lb)); }
+            else if strict_err && i != lb { bad.push(format!("{}: binary_search({:?}) = Err({}), insertion point is {}", name, p, i, lb)); }
         }
     }
 }
@@ -239,7 +240,7 @@ pub fn sortable_case(cx: &mut Ctx, strings: &[String], probes: &[String]) {
         let mut v = SortableStrVec::new();
         for (i, s) in strings.iter().enumerate() {
             match if i % 2 == 0 { v.push_str(s) } else { v.push(s.clone()) } {
-                Ok(id) => if id != i { bad.push(format!("push returned id {} for element {}", id, i)); },
+                Ok(id) => if v.get_by_id(id) != Some(s.as_str()) { bad.push(format!("push returned id {} for element {}, get_by_id gives {:?}", id, i, v.get_by_id(id))); },
                 Err(e) => { bad.push(format!("push failed: {}", e)); return bad; }
             }
         }
@@ -255,7 +256,7 @@ pub fn sortable_case(cx: &mut Ctx, strings: &[String], probes: &[String]) {
         if v.iter_sorted().map(|s| s.to_string()).collect::<Vec<_>>() != sorted { bad.push("iter_sorted after sort_lexicographic".into()); }
         if v.get_sorted(n).is_some() { bad.push("get_sorted(len) is Some".into()); }
         for i in 0..n { if v.get(i) != Some(strings[i].as_str()) { bad.push("get(i) changed by sorting".into()); break; } }
-        for p in probes.iter().chain(sorted.iter().take(40)) { check_search("after sort_lexicographic", &sorted, p, v.binary_search(p), &mut bad); }
+        for p in probes.iter().chain(sorted.iter().take(40)) { check_search("after sort_lexicographic", &sorted, p, v.binary_search(p), false, &mut bad); }
         // radix sort on a fresh vector
         match SortableStrVec::from_iter(strings.iter()) {
             Err(e) => bad.push(format!("from_iter: {}", e)),
@@ -263,7 +264,7 @@ pub fn sortable_case(cx: &mut Ctx, strings: &[String], probes: &[String]) {
                 if let Err(e) = w.radix_sort() { bad.push(format!("radix_sort: {}", e)); }
                 let got = collect_sorted(&w);
                 if got != sorted { bad.push(format!("radix_sort enumerates {:?}, want {:?}", clip(&got), clip(&sorted))); }
-                for p in probes.iter().take(8) { check_search("after radix_sort", &sorted, p, w.binary_search(p), &mut bad); }
+                for p in probes.iter().take(8) { check_search("after radix_sort", &sorted, p, w.binary_search(p), false, &mut bad); }
                 // sort() after a later push sees the new element
                 let _ = w.push_str("");
                 let _ = w.push_str("\u{7f}zz");
@@ -366,7 +367,7 @@ pub fn zo_case(cx: &mut Ctx, strings: &[String], probes: &[String]) {
             if it != sorted { bad.push(format!("iter() enumerates {:?}, want {:?}", clip(&it), clip(&sorted))); }
             if z.iter().size_hint() != (n, Some(n)) { bad.push("size_hint".into()); }
             for p in probes.iter().chain(sorted.iter().take(20)) {
-                check_search("ZoSortedStrVec", &sorted, p, z.binary_search(p), &mut bad);
+                check_search("ZoSortedStrVec", &sorted, p, z.binary_search(p), true, &mut bad);
                 if z.contains(p) != sorted.iter().any(|s| s == p) { bad.push(format!("contains({:?})", p)); }
             }
             for lo in probes.iter() { for hi in probes.iter() {
@@ -459,7 +460,7 @@ pub fn unicode_case(cx: &mut Ctx, text: &[u8]) {
 // ---------------------------------------------------------------- LineProcessor configurations
 /// cfgbits: 1 = skip_empty_lines, 2 = trim_whitespace, 4 = preserve_line_endings
 pub fn lines_cfg_case(cx: &mut Ctx, text: &str, cfgbits: u64, batch: usize, delim: &str) {
-    let cell = "LineProcessor";
+    let cell = "LineProcessor_configs";
     cx.sum.eval(cell, &format!("linescfg {:?} {} {} {:?}", text, cfgbits, batch, delim), text.len() >= 3);
     let cj = json!({"cell": "lines_cfg", "text": text, "cfg": cfgbits, "batch": batch, "delim": delim});
     let r = guarded(|| {
@@ -502,7 +503,14 @@ pub fn lines_cfg_case(cx: &mut Ctx, text: &str, cfgbits: u64, batch: usize, deli
             let mut wf: Vec<(String, usize, usize)> = vec![];
             for (ln, l) in want.iter().enumerate() { for (fi, f) in l.split(delim).enumerate() { wf.push((f.to_string(), ln + 1, fi)); } }
             match mk().split_lines_by(delim, |f, ln, fi| { gf.push((f.to_string(), ln, fi)); Ok(true) }) {
-                Ok(k) => if gf != wf || k != wf.len() { bad.push(format!("split_lines_by({:?}) got {:?} want {:?}", delim, gf, wf)); },
+                Ok(k) => {
+                    // fields and field numbers are pinned; line numbers only have to tell the lines apart, in order
+                    let strip = |v: &Vec<(String, usize, usize)>| v.iter().map(|(f, _, i)| (f.clone(), *i)).collect::<Vec<_>>();
+                    let groups = |v: &Vec<(String, usize, usize)>| { let mut g = vec![]; for w in v.windows(2) { g.push(w[0].1 == w[1].1); } g };
+                    if strip(&gf) != strip(&wf) || k != wf.len() || groups(&gf) != groups(&wf) || gf.windows(2).any(|w| w[0].1 > w[1].1) {
+                        bad.push(format!("split_lines_by({:?}) got {:?} want {:?}", delim, gf, wf));
+                    }
+                }
                 Err(e) => bad.push(format!("split_lines_by: {}", e)),
             }
         }
